@@ -574,6 +574,172 @@ async fn decode_and_verify_responses(
     Ok(headers)
 }
 
+/// Verification hooks: the real `HeaderExClientHandler` behind a recording
+/// `RequestSender`, with crate-visible forwarding methods and read-only accessors of its
+/// private state.  No logic of its own.
+#[cfg(eigerco_lumina_verif)]
+pub(crate) mod verif_client {
+    use super::*;
+
+    /// `RequestSender` that records every request instead of sending it.
+    #[derive(Debug, Default)]
+    pub(crate) struct VerifSender {
+        next_id: u64,
+        sent: Vec<(u64, PeerId, HeaderRequest)>,
+    }
+
+    impl RequestSender for VerifSender {
+        type RequestId = u64;
+
+        fn send_request(&mut self, peer: &PeerId, request: HeaderRequest) -> u64 {
+            let id = self.next_id;
+            self.next_id += 1;
+            self.sent.push((id, *peer, request));
+            id
+        }
+    }
+
+    /// Copy of one private `State`.
+    #[derive(Debug, Clone, PartialEq)]
+    pub(crate) struct VerifReqState {
+        pub(crate) request: HeaderRequest,
+        pub(crate) peer_kind: &'static str,
+        pub(crate) tries_left: usize,
+        pub(crate) closed: bool,
+    }
+
+    /// Copy of the handler's private bookkeeping.
+    #[derive(Debug, Clone, PartialEq, Default)]
+    pub(crate) struct VerifSnapshot {
+        /// `reqs`, sorted by request id.
+        pub(crate) ongoing: Vec<(u64, VerifReqState)>,
+        /// `pending_reqs`, queues in the order Trusted, TrustedArchival, Archival, Any.
+        pub(crate) pending: Vec<VerifReqState>,
+        pub(crate) head_waiters: usize,
+        pub(crate) head_req_scheduled: bool,
+        pub(crate) tasks: usize,
+        pub(crate) queued_events: usize,
+        pub(crate) interval_armed: bool,
+        pub(crate) stopped: bool,
+    }
+
+    /// Copy of `header_ex::Event` (that module is private to `p2p`).
+    #[derive(Debug, Clone, Copy, PartialEq, Eq)]
+    pub(crate) enum VerifEvent {
+        SchedulePendingRequests,
+        NeedTrustedPeers,
+        NeedArchivalPeers,
+    }
+
+    fn kind_name(kind: PeerKind) -> &'static str {
+        match kind {
+            PeerKind::Any => "any",
+            PeerKind::Archival => "archival",
+            PeerKind::Trusted => "trusted",
+            PeerKind::TrustedArchival => "trusted-archival",
+        }
+    }
+
+    fn copy_state(state: &State) -> VerifReqState {
+        VerifReqState {
+            request: state.request.clone(),
+            peer_kind: kind_name(state.peer_kind),
+            tries_left: state.tries_left,
+            closed: state.respond_to.is_closed(),
+        }
+    }
+
+    pub(crate) struct VerifClient {
+        handler: HeaderExClientHandler<VerifSender>,
+        sender: VerifSender,
+    }
+
+    impl VerifClient {
+        pub(crate) fn new() -> Self {
+            VerifClient {
+                handler: HeaderExClientHandler::new(),
+                sender: VerifSender::default(),
+            }
+        }
+
+        pub(crate) fn on_send_request(
+            &mut self,
+            request: HeaderRequest,
+            respond_to: oneshot::Sender<Result<Vec<ExtendedHeader>, P2pError>>,
+        ) {
+            self.handler.on_send_request(request, respond_to);
+        }
+
+        pub(crate) fn schedule_pending_requests(&mut self, peer_tracker: &PeerTracker) {
+            self.handler
+                .schedule_pending_requests(&mut self.sender, peer_tracker);
+        }
+
+        /// Every request handed to the sender so far: (request id, peer, request).
+        pub(crate) fn sent(&self) -> &[(u64, PeerId, HeaderRequest)] {
+            &self.sender.sent
+        }
+
+        pub(crate) fn on_response_received(
+            &mut self,
+            peer: PeerId,
+            request_id: u64,
+            responses: Vec<HeaderResponse>,
+        ) {
+            self.handler
+                .on_response_received(peer, request_id, responses);
+        }
+
+        pub(crate) fn on_failure(&mut self, peer: PeerId, request_id: u64, error: OutboundFailure) {
+            self.handler.on_failure(peer, request_id, error);
+        }
+
+        pub(crate) fn on_stop(&mut self) {
+            self.handler.on_stop();
+        }
+
+        pub(crate) fn poll(&mut self, cx: &mut Context) -> Poll<VerifEvent> {
+            self.handler.poll(cx).map(|ev| match ev {
+                Event::SchedulePendingRequests => VerifEvent::SchedulePendingRequests,
+                Event::NeedTrustedPeers => VerifEvent::NeedTrustedPeers,
+                Event::NeedArchivalPeers => VerifEvent::NeedArchivalPeers,
+            })
+        }
+
+        pub(crate) fn snapshot(&self) -> VerifSnapshot {
+            let mut ongoing = self
+                .handler
+                .reqs
+                .iter()
+                .map(|(id, state)| (*id, copy_state(state)))
+                .collect::<Vec<_>>();
+            ongoing.sort_by_key(|(id, _)| *id);
+
+            let pending = [
+                PeerKind::Trusted,
+                PeerKind::TrustedArchival,
+                PeerKind::Archival,
+                PeerKind::Any,
+            ]
+            .iter()
+            .filter_map(|kind| self.handler.pending_reqs.get(kind))
+            .flat_map(|queue| queue.iter().map(copy_state))
+            .collect();
+
+            VerifSnapshot {
+                ongoing,
+                pending,
+                head_waiters: self.handler.head_reqs.len(),
+                head_req_scheduled: self.handler.head_req_scheduled,
+                tasks: self.handler.tasks.len(),
+                queued_events: self.handler.events.len(),
+                interval_armed: self.handler.schedule_pending_interval.is_some(),
+                stopped: self.handler.cancellation_token.is_cancelled(),
+            }
+        }
+    }
+}
+
 #[cfg(test)]
 mod tests {
     use super::*;
